@@ -1168,31 +1168,51 @@ func (u *Unit) computeControlDeps() map[*cfg.Block]bool {
 			}
 		}
 	}
-	res := map[*cfg.Block]bool{}
+	// direct control dependence: a depends on b iff a post-dominates some successor of b but not b itself
+	cd := map[*cfg.Block][]*cfg.Block{}
 	for _, a := range blocks {
-		uncond := true
 		for _, b := range blocks {
-			if len(succ[b]) < 2 || b == a {
-				continue
-			}
-			if b.Kind == cfg.KindRangeLoop || b.Kind == cfg.KindForLoop {
-				continue
-			}
-			// a control dependent on b: a pdoms some succ of b, but does not pdom b
-			if pdom[b][a.Index] {
+			if len(succ[b]) < 2 || b == a || pdom[b][a.Index] {
 				continue
 			}
 			for _, s := range succ[b] {
 				if pdom[s][a.Index] {
-					uncond = false
+					cd[a] = append(cd[a], b)
 					break
 				}
 			}
-			if !uncond {
+		}
+	}
+	// a block is unconditional iff every controller is a loop head that is itself unconditional
+	// (transitively: a check inside a loop that sits under an `if` is conditional)
+	res := map[*cfg.Block]bool{}
+	state := map[*cfg.Block]int{} // 1 = in progress, 2 = done
+	var eval func(a *cfg.Block) bool
+	eval = func(a *cfg.Block) bool {
+		if state[a] == 2 {
+			return res[a]
+		}
+		if state[a] == 1 {
+			return true // cycle through loop heads
+		}
+		state[a] = 1
+		ok := true
+		for _, b := range cd[a] {
+			if b.Kind != cfg.KindRangeLoop && b.Kind != cfg.KindForLoop {
+				ok = false
+				break
+			}
+			if !eval(b) {
+				ok = false
 				break
 			}
 		}
-		res[a] = uncond
+		res[a] = ok
+		state[a] = 2
+		return ok
+	}
+	for _, a := range blocks {
+		eval(a)
 	}
 	return res
 }
@@ -1309,7 +1329,10 @@ func (g *GuardEngine) InventoryOf(fd *FuncDecl) Inventory {
 
 // enclosingIfs returns the if statements (innermost first) whose then/else branch contains n,
 // stopping at the nearest enclosing loop or function literal.
-func (u *Unit) enclosingIfs(n ast.Node) []*ast.IfStmt {
+func (u *Unit) enclosingIfs(n ast.Node) []*ast.IfStmt { return u.enclosingIfsOpt(n, true) }
+
+// enclosingIfsOpt: stopAtLoop=false walks up to the function (or literal) boundary.
+func (u *Unit) enclosingIfsOpt(n ast.Node, stopAtLoop bool) []*ast.IfStmt {
 	var path []ast.Node
 	var found []ast.Node
 	ast.Inspect(u.Body, func(x ast.Node) bool {
@@ -1330,8 +1353,12 @@ func (u *Unit) enclosingIfs(n ast.Node) []*ast.IfStmt {
 	var out []*ast.IfStmt
 	for i := len(found) - 2; i >= 0; i-- {
 		switch p := found[i].(type) {
-		case *ast.ForStmt, *ast.RangeStmt, *ast.FuncLit:
+		case *ast.FuncLit:
 			return out
+		case *ast.ForStmt, *ast.RangeStmt:
+			if stopAtLoop {
+				return out
+			}
 		case *ast.IfStmt:
 			child := found[i+1]
 			if child == ast.Node(p.Body) || (p.Else != nil && child == p.Else) {
